@@ -70,6 +70,7 @@ ObsViolations(t, e) ==
   \cup (IF ~Known(e.reg) \/ ~Known(e.adv) \/ ~Known(e.gos) THEN {"UnknownEndpoint"} ELSE {})
   \cup (IF AliveSet(t) = {} /\ (e.sess # 0 \/ \E ep \in Eps : Cnt(e.reg, ep) + Cnt(e.adv, ep) + Cnt(e.gos, ep) # 0)
         THEN {"AllGoneAdvertisesNothing"} ELSE {})
+  \cup (IF e.ev = "stop" /\ e.conns # 0 THEN {"ShutdownClosesConnections"} ELSE {})
   \cup (IF e.ev = "request" /\ e.status = 200 /\ (e.served \notin Conn \/ (e.served \in Conn /\ ~AliveIn(t, e.served)))
         THEN {"ServedByClosedConnection"} ELSE {})
 
